@@ -11,7 +11,7 @@ from .mir import engine as mir_engine, exec as mx, cmpcfg
 from .mir.cmpcfg import FieldAtoms, TRAITS, ATTRS, BODY_FN
 
 PID = "C05"
-OPAQUE = {"ItemSourceKind::this_of", "ItemSourceKind::self_of", "ItemSourceKind::other_of", "Template::apply", "replace_tokens", "FieldEntry::make_ident",
+OPAQUE = {"ItemSourceKind::this_of", "ItemSourceKind::self_of", "ItemSourceKind::other_of", "Template::apply", "replace_tokens", "ref_elem", "FieldEntry::make_ident",
           "FieldEntry::member", "FieldEntry::span", "VariantEntry::make_pat", "VariantEntry::make_pat_with_self_path", "VariantEntry::make_pat_wildcard",
           "build_to_index_fn", "DeriveItemKind::to_path", "CompareOp::to_path", "build_ctor_args"}
 TRACE = {"bad_attr", "bad_attr_1", "HelperAttributes::verify", "HelperAttributesForCompareOp::verify", "HelperAttributeForCompareOp::verify",
@@ -101,6 +101,10 @@ def replay_failures(obl, out):
     for label, model, info in obl.failed:
         if not info or info[0] == "panic":
             out.broken.append("reachable panic / unexplained failure in %s: %s" % (label, info))
+            continue
+        if info[0] == "parse":
+            # a fact about the macro's own code (which parse result lands in which slot): confirmed by the native placement matrix, else not established
+            probes.structural(out, "parse-wiring|" + label.split(":")[-1][:60], "%s: %s" % (label, info[1]), "C05.parse")
             continue
         if info[0] == "verify":
             _, tgt, d, err = info
@@ -214,6 +218,117 @@ def check_verify(eng, obl, out):
         obl.discharged += 1
     else:
         probes.structural(out, "from_attrs-verify", "HelperAttributes::from_attrs can return Ok without verifying the placement of the attributes", 'C05.placement')
+
+
+def check_parse_wiring(eng, obl, out):
+    """what the body builders see is what was written: (O1) HelperAttributesForCompareOp::from_attrs fills the slot of attribute X with the parse result for X, and does so
+    iff `kinds.is_match_cmp_attr(X)` (an uninterpreted predicate here; what it answers is C14's subject); (O2) HelperAttributeForCompareOp::from_attrs copies every argument
+    of the parsed attribute into the entry (ignore, reverse, by, key, bound) - the result of `parse_single` is a symbolic input; (O3) the attribute name looked up for X is X's own."""
+    slots = eng.ti.structs.get("HelperAttributesForCompareOp") or list(ATTRS)
+    variant = {"ord": "Ord", "partial_ord": "PartialOrd", "eq": "Eq", "partial_eq": "PartialEq", "hash": "Hash"}
+    pure = "HelperAttributeKinds::is_match_cmp_attr"
+    inner = "HelperAttributeForCompareOp::from_attrs"
+    ex = eng.executor(opaque_local={pure, inner}, trace={inner})
+    ex.pure_fns = {pure}
+    fn = eng.find("HelperAttributesForCompareOp::from_attrs")
+    res = ex.run(fn, eng.args_for(fn))
+    tag = "HelperAttributesForCompareOp::from_attrs"
+    obl.note_paths(tag, res, ex)
+    m = {a: ex.bvar("pure:%s(sym:kinds,agg:CompareOp::%s())" % (pure, variant[a])) for a in slots if a in variant}
+    bad_shape = None
+    for r in res:
+        if r.kind != "return":
+            out.inconclusive.append("fn=%s reason=%s %s" % (tag, r.kind, r.value))
+            continue
+        if is_err(r):
+            # an error can only come from parsing an attribute that is recognised
+            src = ex.summ(mx.State(), r.value)
+            conj = [m[a] for a in m if "%s(sym:attrs,agg:CompareOp::%s())" % (inner, variant[a]) in src] or [z3.BoolVal(False)]
+            obl.check_unsat(ex, tag + ":error-of-a-recognised-attribute", list(r.pc) + [z3.Not(z3.Or(conj))], info=("parse", src[:200]))
+            continue
+        v = r.value.fields[0] if isinstance(r.value, mx.Agg) and r.value.fields else None
+        if not (isinstance(v, mx.Agg) and len(v.fields) == len(slots)):
+            bad_shape = "result is not a HelperAttributesForCompareOp aggregate"
+            continue
+        conj, what = [], []
+        for a, fv in zip(slots, v.fields):
+            sm = ex.summ(mx.State(), fv)
+            own = "ok-of(%s(sym:attrs,agg:CompareOp::%s()))" % (inner, variant[a]) in sm and sm.count(inner) == 1
+            dflt = inner not in sm
+            conj.append(m[a] if own else (z3.Not(m[a]) if dflt else z3.BoolVal(False)))
+            what.append((a, "own parse result" if own else ("default" if dflt else sm[:80])))
+        obl.check_unsat(ex, tag + ":slot-is-own-parse-result-iff-recognised", list(r.pc) + [z3.Not(z3.And(conj))], info=("parse", what), keep_smt=True)
+    if bad_shape:
+        out.inconclusive.append("fn=%s reason=%s" % (tag, bad_shape))
+    else:
+        e3.coverage_check(ex, obl, tag, res)
+    # (O2)
+    ex2 = eng.executor(opaque_local={"parse_single", "Bounds::from", "From::Bounds::from", "Template::new", "CompareOp::to_str_snake_case"}, trace={"parse_single"})
+    ex2.sym_returns = {"parse_single": "parsed"}
+    fn2 = eng.find(inner)
+    res2 = ex2.run(fn2, eng.args_for(fn2))
+    obl.note_paths(inner, res2, ex2)
+    names = eng.ti.structs.get("HelperAttributeForCompareOp") or ["ignore", "reverse", "by", "key", "bounds"]
+    for r in res2:
+        if r.kind != "return":
+            out.inconclusive.append("fn=%s reason=%s %s" % (inner, r.kind, r.value))
+            continue
+        if not any(e[0] == "parse_single" and e[1][1] == "opaque:CompareOp::to_str_snake_case(sym:op)" for e in r.events):
+            obl.check_unsat(ex2, inner + ":parses-the-attribute-of-its-own-name", list(r.pc), info=("parse", "parse_single is not called with op.to_str_snake_case(): %s" % (r.events[:2],)))
+            continue
+        if is_err(r):
+            obl.check_unsat(ex2, inner + ":error-iff-parse-error", list(r.pc) + [ex2.ivar("disc(parsed)", 0, 1) == 0], info=("parse", "Err although the attribute parsed"))
+            continue
+        v = r.value.fields[0] if isinstance(r.value, mx.Agg) and r.value.fields else None
+        if not (isinstance(v, mx.Agg) and len(v.fields) == len(names)):
+            out.inconclusive.append("fn=%s reason=result is not a HelperAttributeForCompareOp aggregate" % inner)
+            continue
+        f = dict(zip(names, (ex2.summ(mx.State(), x) for x in v.fields)))
+        some = ex2.ivar("disc(parsed.<Ok>.0)", 0, 1) == 1
+        base = r"sym:parsed\.<Ok>\.0\.<Some>\.0(\.0)?\."
+        import re as _re
+        dby = ex2.ivar("disc(parsed.<Ok>.0.<Some>.0.0.by)", 0, 1) == 1
+        dkey = ex2.ivar("disc(parsed.<Ok>.0.<Some>.0.0.key)", 0, 1) == 1
+        copied = [
+            z3.BoolVal(_re.fullmatch(base + "ignore", f.get("ignore", "")) is not None),
+            z3.BoolVal(_re.fullmatch(base + "reverse", f.get("reverse", "")) is not None),
+            dby if _re.fullmatch(r"agg:Option::Some\(" + base + r"by\.<Some>\.0\.value\)", f.get("by", "")) else (z3.Not(dby) if f.get("by") == "agg:Option::None()" else z3.BoolVal(False)),
+            dkey if _re.fullmatch(r"agg:Option::Some\(opaque:Template::new\(" + base + r"key\.<Some>\.0\.value\)\)", f.get("key", "")) else (z3.Not(dkey) if f.get("key") == "agg:Option::None()" else z3.BoolVal(False)),
+            z3.BoolVal(_re.fullmatch(r"opaque:(From::)?Bounds::from\(" + base + r"bound\)", f.get("bounds", "")) is not None),
+        ]
+        is_default = "parsed" not in "".join(f.values())
+        want = z3.If(some, z3.And(copied), z3.BoolVal(is_default))
+        obl.check_unsat(ex2, inner + ":entry-is-the-parsed-attribute", list(r.pc) + [z3.Not(want)], info=("parse", {k: x[:90] for k, x in f.items()}), keep_smt=True)
+    e3.coverage_check(ex2, obl, inner, res2)
+    # (O3) the name table
+    fn3 = eng.find("CompareOp::to_str_snake_case")
+    for a, vn in variant.items():
+        r3 = eng.executor().run(fn3, [mx.Agg("adt", "CompareOp", vn, [])])
+        obl.total += 1
+        got = [r.value.extra for r in r3 if r.kind == "return" and isinstance(r.value, mx.Agg) and r.value.kind == "str"]
+        if len(r3) == 1 and got == [a]:
+            obl.discharged += 1
+        else:
+            obl.failed.append(("CompareOp::to_str_snake_case(%s)" % vn, None, ("parse", "CompareOp::%s is looked up under the attribute name %s, not `%s`" % (vn, got, a))))
+
+
+def placement_matrix(out):
+    """the written attribute reaches the verdict: the complete placement matrix and the per-owner recognition of every helper attribute, through the real macro (native; the
+    E3 obligations start from parsed entries, this is the link between the written attribute and the parsed entry). A disagreement is a verdict of the macro's own diagnostics."""
+    n = 0
+    for case in probes.PROBES["C05.parse"]:
+        from . import replay_e3
+        obs = replay_e3.observe(case)
+        n += 1
+        if replay_e3.disagrees(case, obs):
+            c = dict(case, property=PID, explain="placement matrix: documented verdict %s, the macro says %s" % ("rejected" if case.get("expected_reject") else "accepted", obs.get("errors")))
+            path = e3.write_replay(PID, "placement-%02d" % n, c)
+            out.violation("placement|%s|%s" % (case["attr"][:40], common.norm(case["item"])[:70]), path,
+                          "verdict from the macro's own diagnostics, not from the solver: #[derive_ex(%s)] %s should be %s; errors: %s" % (
+                              case["attr"], case["item"], "rejected (%s)" % case.get("message") if case.get("expected_reject") else "accepted", obs.get("errors")))
+            if sum(1 for v in out.violations if v[0].startswith("placement|")) >= 3:
+                break
+    return n
 
 
 def check_isolation(eng, obl, out):
@@ -347,6 +462,8 @@ def run(tier):
                     safe_body(eng, obl, out, t, "enum", 1, 2, keep=[{a}, {b}], label=" %s/%s" % (a, b))
         e3.safe_part(out, check_verify, eng, obl, out)
         e3.safe_part(out, check_isolation, eng, obl, out)
+        e3.safe_part(out, check_parse_wiring, eng, obl, out)
+        placed = e3.safe_part(out, placement_matrix, out) or 0
         validated = e3.safe_part(out, validate_encoder, eng, 120 if tier == "thorough" else 40, rnd, out) or 0
         replay_failures(obl, out)
         if tier == "thorough":
@@ -363,4 +480,4 @@ def run(tier):
                "use_bounds=false (bound(..) plays no part in acceptance); inline depth<=14, <=14 visits per block",
         outside="the attribute parser (structmeta / HelperAttributes::from_attrs parsing steps are opaque: the check starts from parsed entries); interactions needing >=3 fields; "
                 "rustc diagnostics text",
-        validated=validated)
+        validated=validated + (placed if 'placed' in dir() else 0))
